@@ -71,7 +71,10 @@ JwkMods == {"none", "off_curve", "x_short", "x_long", "y_short", "y_long", "x_em
             "x_long_256",
             \* a coordinate one byte short whose TEXT has the right length (a line break inside it); the curve / key type name in
             \* another letter case together with a short coordinate; a coordinate text that only decodes after JSON unescaping
-            "x_short_linebreak", "x_short_name_case", "x_escaped_text"}
+            "x_short_linebreak", "x_short_name_case", "x_escaped_text",
+            \* the curve is what crv names, whatever a further alg member hints at: a point under the name of another curve is
+            \* refused also when alg names the curve it lies on; a key whose alg names another curve is the key crv says it is
+            "wrong_crv_name_alg_hint", "alg_of_other_curve"}
 ModApplies(kt, m) == kt # "ed" \/ m \in {"none", "x_short", "x_long", "x_empty", "x_not_base64", "x_short_shadowed", "x_long_256",
                                              "x_short_linebreak", "x_short_name_case", "x_escaped_text"}
 
@@ -80,7 +83,7 @@ JwkCases == {[kind |-> "jwk", kt |-> kt, shape |-> sh, mod |-> m] : kt \in KeyTy
 ValidJwkCase(c) == c.shape \in CoordShapes(c.kt) /\ ModApplies(c.kt, c.mod)
 
 \* an unmodified key round-trips at full width; every modification is rejected
-JwkAccepted(c) == c.mod = "none"
+JwkAccepted(c) == c.mod \in {"none", "alg_of_other_curve"}
 
 Cases == {c \in JwsCases : ValidJwsCase(c)} \cup {c \in JwkCases : ValidJwkCase(c)}
 
